@@ -82,6 +82,20 @@ func H_c14(p []int) {
 		verb = c14MultiVerbs[p[2]-1]
 	}
 	vSite(fmt.Sprintf("width=%d prec=%d verbmode=%d", c14Widths[p[0]], c14Precs[p[1]], p[2]))
+	if len(p) > 3 && p[3] > 0 {
+		// an earlier MakeFormat call for a neighbouring directive (same
+		// flags and verb; width / precision presence toggled)
+		st0 := *st
+		switch p[3] {
+		case 1:
+			st0.precOK, st0.prec = !st.precOK, 0
+		case 2:
+			st0.widOK, st0.wid = !st.widOK, 0
+		case 3:
+			st0.prec, st0.precOK = st.prec+1, true
+		}
+		_, _ = redact.MakeFormat(&st0, verb)
+	}
 	justV, f := redact.MakeFormat(st, verb)
 	vObserve("format", []byte(f))
 	noFlags := vAnd(vAnd(vAnd(vNot(st.plus), vNot(st.minus)), vAnd(vNot(st.sharp), vNot(st.space))), vNot(st.zero))
